@@ -231,11 +231,38 @@ PURE_ACCESSORS = {
 
 
 PURE_ADAPTORS = {
-    "any", "all", "find", "position", "map", "filter", "rev", "enumerate", "zip", "windows", "skip", "take", "is_ascii_digit", "is_ascii", "is_char_boundary",
+    "any", "all", "find", "position", "map", "filter", "rev", "enumerate", "zip", "windows", "skip", "is_ascii_digit", "is_ascii", "is_char_boundary",
     "is_alphabetic", "is_sorted", "checked_add", "checked_mul", "checked_sub", "is_some_and", "is_none_or", "max", "min", "eq", "ne", "into_iter", "last",
-    "collect", "sum", "fold", "join", "concat", "unzip", "flatten", "flat_map", "filter_map", "chain", "find_map", "take_while", "skip_while", "peekable", "nth", "step_by",
+    "collect", "sum", "fold", "join", "concat", "unzip", "flatten", "flat_map", "filter_map", "chain", "find_map", "take_while", "skip_while", "peekable", "step_by",
     "is_power_of_two", "leading_zeros", "count_ones", "contains_any", "intersects", "is_all", "union", "intersection", "complement", "difference",
 }
+CONSUMING = {"any", "all", "find", "find_map", "position", "count", "last", "max", "min", "sum", "fold", "collect", "nth", "for_each", "eq", "ne", "unzip", "join", "is_sorted"}
+FRESH = {"iter", "chars", "bytes", "char_indices", "keys", "values", "into_iter", "windows", "chunks", "lines", "split", "split_whitespace", "splitn", "rsplit", "matches", "drain_none", "to_vec", "clone", "cloned_iter", "as_bytes", "as_slice", "as_str", "to_string", "to_owned"}
+
+
+def _fresh_iterator(recv):
+    """The receiver chain of a consuming adaptor starts a new iterator (`.iter()`, `.chars()`, …) somewhere, or is no iterator at all
+    (a slice / string method of the same name such as `join`, `concat`, `eq`)."""
+    r = recv
+    while isinstance(r, dict):
+        k_ = r.get("k")
+        if k_ in ("paren", "ref", "unary", "field", "try_"):
+            r = r.get("e")
+        elif k_ == "mcall":
+            if r.get("m") in FRESH:
+                return True
+            r = r.get("recv")
+        elif k_ in ("array", "tuple", "range", "lit", "macro"):
+            return True
+        elif k_ == "path":
+            return False
+        elif k_ == "call":
+            return True
+        else:
+            return False
+    return False
+
+
 PURE_CRATE_METHODS = set()  # names of the crate's own `&self` methods whose every definition only reads (computed by apply())
 ASSERT_MACROS = {"assert", "assert_eq", "assert_ne", "debug_assert", "debug_assert_eq", "debug_assert_ne"}
 
@@ -273,7 +300,10 @@ def pure_expr(e):
             return False
         return pure_expr(e.get("lhs")) and pure_expr(e.get("rhs"))
     if k == "mcall":
-        return e.get("m") in (PURE_ACCESSORS | PURE_ADAPTORS | PURE_CRATE_METHODS) and pure_expr(e.get("recv")) and pure_expr(e.get("args"))
+        m_ = e.get("m")
+        if m_ in CONSUMING and m_ not in PURE_ACCESSORS and not _fresh_iterator(e.get("recv")):
+            return False  # `self.pending.any(..)` on a stored iterator advances it: not a read
+        return m_ in (PURE_ACCESSORS | PURE_ADAPTORS | PURE_CRATE_METHODS) and pure_expr(e.get("recv")) and pure_expr(e.get("args"))
     if k == "call":
         f_ = e.get("f") or {}
         segs = f_.get("segs") or [] if f_.get("k") == "path" else []
